@@ -24,7 +24,10 @@ import (
 //
 //   impl observation : FocusedTransform result with every link resolved through the (updated) store; number of blocks
 //                      written; the input tree re-read afterwards; WalkTransforming result
-//   (D) correspondence: == the Lean model of focusedTransform (`xform.focus`)
+//   (D) correspondence: == the Lean model of focusedTransform (`xform.focus`); WalkTransforming == the Lean model of
+//                       walkTransforming (`xform.walkt`: outcome class, result term with links NOT resolved, the callback's
+//                       calls in order with path and node), inside one block and across links under plain / visit-once /
+//                       skipping loader / both, with and without node and link budgets, identity and successor callbacks
 //   (O) oracle        : result == reference update of the abstract value computed in Go (replace / insert missing key /
 //                       append via "-" / create parents / remove), every other entry equal and in its original order; the
 //                       input reads back unchanged; identity transform returns an equal tree; the callback receives the node
@@ -33,7 +36,7 @@ import (
 //                       reference map over matched positions.
 
 func init() {
-	core.Register(&core.Check{ID: "C16", Run: runC16, Replay: replayC07})
+	core.Register(&core.Check{ID: "C16", Run: runC16, Replay: replayC16})
 }
 
 // expand resolves links through blocks (fuel-bounded)
@@ -449,8 +452,215 @@ func readNodeSafe(n datamodel.Node) (v core.Val, err error) {
 	return core.ReadNode(n)
 }
 
+// ---- (D) correspondence for traversal.WalkTransforming: the Lean model `WalkT.walkT` through the driver's `xform.walkt` ----
+
+// wtBatch collects the cases of the walking-transform correspondence of one run (driver line, implementation's answer).
+type wtBatch struct{ lines, impls []string }
+
+// walkTLine: the driver line for one case: `xform.walkt <id|succ>` followed by the configuration / graph / selector
+// encoding of `walk.run`.
+func walkTLine(mode string, g *core.Graph, spec core.Val, w core.WalkCfg) string {
+	return "xform.walkt " + mode + strings.TrimPrefix(walkLine(g, spec, w), "walk.run")
+}
+
+// implWalkT runs the real WalkTransforming and prints what the driver prints for the model: the outcome class, the result
+// term (read through the public Node API; links NOT resolved, so an inlined block shows as its content and a link that was
+// left in place as the link), and the callback's calls in order, each with its path and the node it was handed.
+// "" = the harness could not set the case up.
+func implWalkT(mode string, g *core.Graph, spec core.Val, w core.WalkCfg) string {
+	s, st := core.CompileSel(spec)
+	if st != "" {
+		if strings.HasPrefix(st, "harness:") {
+			return ""
+		}
+		return st
+	}
+	root, err := core.BuildBasic(g.Root, nil)
+	if err != nil {
+		return ""
+	}
+	var calls []string
+	fn := func(p traversal.Progress, m datamodel.Node) (datamodel.Node, error) {
+		var segs []string
+		for _, seg := range p.Path.Segments() {
+			segs = append(segs, seg.String())
+		}
+		calls = append(calls, core.PathArg(segs)+" "+termOf(m))
+		if mode == "succ" && m.Kind() == datamodel.Kind_Int {
+			if i, err := m.AsInt(); err == nil && i < 1<<40 && i > -(1<<40) {
+				return basicnode.NewInt(i + 1), nil
+			}
+		}
+		return m, nil
+	}
+	cfg := &traversal.Config{LinkSystem: g.LinkSystem(nil, w.Skip), LinkVisitOnlyOnce: w.Once,
+		LinkTargetNodePrototypeChooser: func(datamodel.Link, linking.LinkContext) (datamodel.NodePrototype, error) {
+			return basicnode.Prototype.Any, nil
+		}}
+	prog := traversal.Progress{Cfg: cfg}
+	if w.NodeBudget != nil || w.LinkBudget != nil {
+		b := &traversal.Budget{NodeBudget: 1 << 60, LinkBudget: 1 << 60}
+		if w.NodeBudget != nil {
+			b.NodeBudget = *w.NodeBudget
+		}
+		if w.LinkBudget != nil {
+			b.LinkBudget = *w.LinkBudget
+		}
+		prog.Budget = b
+	}
+	out := func() (out string) {
+		defer func() {
+			if x := recover(); x != nil {
+				out = "panic"
+			}
+		}()
+		res, err := prog.WalkTransforming(root, s, fn)
+		if err != nil {
+			return core.ClassifyWalkErr(err)
+		}
+		return "ok " + termOf(res)
+	}()
+	return out + " CALLS " + strings.Join(calls, " | ")
+}
+
+// parseWalkTLine rebuilds graph, selector spec and controls from an `xform.walkt` driver line (blocks are re-encoded; a
+// block whose link does not come out as written makes the line not re-executable).
+func parseWalkTLine(line string) (mode string, g *core.Graph, spec core.Val, w core.WalkCfg, err error) {
+	f := strings.Fields(line)
+	if len(f) < 9 || f[0] != "xform.walkt" || f[7] != "STORE" {
+		return "", nil, core.Val{}, w, fmt.Errorf("not an xform.walkt line")
+	}
+	mode = f[1]
+	if f[2] != "-" {
+		nb, e := strconv.ParseInt(f[2], 10, 64)
+		if e != nil {
+			return "", nil, core.Val{}, w, e
+		}
+		w.NodeBudget = &nb
+	}
+	if f[3] != "-" {
+		lb, e := strconv.ParseInt(f[3], 10, 64)
+		if e != nil {
+			return "", nil, core.Val{}, w, e
+		}
+		w.LinkBudget = &lb
+	}
+	w.Once = f[4] == "t"
+	if f[6] != "-" {
+		w.Skip = map[string]bool{}
+		for _, h := range strings.Split(f[6], ",") {
+			b, e := hex.DecodeString(h)
+			if e != nil {
+				return "", nil, core.Val{}, w, e
+			}
+			w.Skip[string(b)] = true
+		}
+	}
+	g = &core.Graph{Blocks: map[string][]byte{}, Vals: map[string]core.Val{}}
+	rest := f[8:]
+	for len(rest) > 0 && rest[0] != "ROOT" {
+		want := rest[0]
+		v, r2, e := core.ParseTerm(rest[1:])
+		if e != nil {
+			return "", nil, core.Val{}, w, e
+		}
+		cb, e := g.AddBlock(v)
+		if e != nil {
+			return "", nil, core.Val{}, w, e
+		}
+		if "l"+hex.EncodeToString(cb) != want {
+			return "", nil, core.Val{}, w, fmt.Errorf("block re-encodes to another link than %s", want)
+		}
+		rest = r2
+	}
+	if len(rest) == 0 {
+		return "", nil, core.Val{}, w, fmt.Errorf("no ROOT")
+	}
+	root, r2, e := core.ParseTerm(rest[1:])
+	if e != nil || len(r2) == 0 || r2[0] != "SEL" {
+		return "", nil, core.Val{}, w, fmt.Errorf("bad ROOT / SEL")
+	}
+	g.Root = root
+	spec, r3, e := core.ParseTerm(r2[1:])
+	if e != nil || len(r3) != 0 {
+		return "", nil, core.Val{}, w, fmt.Errorf("bad SEL term")
+	}
+	return mode, g, spec, w, nil
+}
+
+// replayC16 re-executes a walking-transform correspondence case from its text (implementation and model); other cases
+// replay as C07's do.
+func replayC16(c *core.Ctx, rp core.Replay) error {
+	if !strings.HasPrefix(rp.Case, "xform.walkt ") {
+		return replayC07(c, rp)
+	}
+	mode, g, spec, w, err := parseWalkTLine(rp.Case)
+	if err != nil {
+		return err
+	}
+	impl := implWalkT(mode, g, spec, w)
+	outs, err := core.RunDriver([]string{rp.Case})
+	if err != nil {
+		return err
+	}
+	fmt.Printf("impl : %s\nmodel: %s\n", impl, outs[0])
+	if impl != outs[0] {
+		c.Fail("C16/corr-walk-transform", core.Replay{Kind: "correspondence", Case: rp.Case, Impl: impl, Model: outs[0]})
+	}
+	return nil
+}
+
+// add: both transform functions on one case; with `budgets`, the same case again under a drawn node / link budget
+// (side: a PRNG of its own, so that the draws of the oracles' generators are what they were).
+func (b *wtBatch) add(g *core.Graph, spec core.Val, w core.WalkCfg, side *core.Rand) {
+	cfgs := []core.WalkCfg{w}
+	if side.Chance(1, 3) {
+		wb := w
+		if side.Bool() {
+			nb := int64(side.Intn(24))
+			wb.NodeBudget = &nb
+		}
+		if wb.NodeBudget == nil || side.Bool() {
+			lb := int64(side.Intn(5))
+			wb.LinkBudget = &lb
+		}
+		cfgs = append(cfgs, wb)
+	}
+	for _, wc := range cfgs {
+		wc.Start = nil // WalkTransforming does not read StartAtPath
+		for _, mode := range []string{"id", "succ"} {
+			impl := implWalkT(mode, g, spec, wc)
+			if impl == "" {
+				continue
+			}
+			b.lines = append(b.lines, walkTLine(mode, g, spec, wc))
+			b.impls = append(b.impls, impl)
+		}
+	}
+}
+
+// check pipes the collected cases through the model driver and reports every difference.
+func (b *wtBatch) check(c *core.Ctx) error {
+	outs, err := core.RunDriver(b.lines)
+	if err != nil {
+		return err
+	}
+	for i := range b.lines {
+		c.Trace(1)
+		if i < 2 {
+			c.Sample(map[string]string{"case": truncateStr(b.lines[i], 500), "impl": truncateStr(b.impls[i], 300)})
+		}
+		if outs[i] != b.impls[i] {
+			c.Fail("C16/corr-walk-transform", core.Replay{Kind: "correspondence", Case: b.lines[i], Impl: b.impls[i], Model: outs[i]})
+		}
+	}
+	return nil
+}
+
 // walking transform inside one block: every matched position is replaced by fn; nothing else changes
-func c16Walking(c *core.Ctx, r *core.Rand) error {
+func c16Walking(c *core.Ctx, r *core.Rand, wt *wtBatch) error {
+	sideCopy := *r
+	side := sideCopy.Fork()
 	v := core.GenVal(r, core.GenCfg{MaxDepth: 3, MaxWidth: 4}, 0)
 	n, err := core.BuildBasic(v, nil)
 	if err != nil {
@@ -532,6 +742,10 @@ func c16Walking(c *core.Ctx, r *core.Rand) error {
 			return err
 		}
 	}
+	// (D) the model of walkTransforming on this case (every selector the generator draws: subset matchers, InterpretAs
+	// clauses, non-canonical numeral field names and rejected specs included)
+	wt.add(g, spec, core.WalkCfg{}, side)
+	c.Dist("walk-transform-model")
 	if specHasSubset(spec) {
 		return nil
 	}
@@ -613,7 +827,17 @@ func c16Walking(c *core.Ctx, r *core.Rand) error {
 				}()
 				if err3 == nil && termOf(res3) == want.Term() {
 					sig = "C16/walk-transform-noncanonical-index-field"
+					c.Dist("known-rule:canonical-spelling-repairs")
 				}
+			}
+			// the same finding where canonical spelling cannot reproduce the walk's expectation: the canonical name collides
+			// with another name of the same element ("+1" next to "01" or "1", in this clause or in another member of a union,
+			// or with a range / index clause), so that the WALK arrives at that element once per spelling (and the expectation
+			// applies the successor once per arrival).  Classified by the finding's trigger itself: the walk did resolve a
+			// non-canonical numeral against a list.
+			if sig == "C16/walk-transform-differs" && walkResolvedNonCanonicalIndex(g, spec, core.WalkCfg{}) {
+				sig = "C16/walk-transform-noncanonical-index-field"
+				c.Dist("known-rule:walk-resolved-noncanonical-numeral-on-list")
 			}
 		}
 		c.Fail(sig, core.Replay{Kind: "oracle", Case: caseSel, Impl: termOfOrErr(res, err), Expected: want.Term(),
@@ -629,7 +853,9 @@ func c16Walking(c *core.Ctx, r *core.Rand) error {
 // else the property says still holds and is checked modulo that: with every link resolved through the store, the
 // identity transform returns the resolved input, the successor transform returns the resolved input updated at exactly
 // the positions WalkMatching visits under the same controls, nothing panics and nothing is dropped.
-func c16WalkLinked(c *core.Ctx, r *core.Rand) error {
+func c16WalkLinked(c *core.Ctx, r *core.Rand, wt *wtBatch) error {
+	sideCopy := *r
+	side := sideCopy.Fork()
 	g, err := core.GenGraph(r, 1+r.Intn(5))
 	if err != nil {
 		return err
@@ -638,11 +864,27 @@ func c16WalkLinked(c *core.Ctx, r *core.Rand) error {
 	if r.Chance(1, 2) {
 		spec = core.GenSelector(r, g, 0, false, false)
 	}
-	if specHasSubset(spec) || strings.Contains(spec.Term(), " s7e ") {
-		return nil
-	}
+	skipOracle := specHasSubset(spec) || strings.Contains(spec.Term(), " s7e ")
 	var w core.WalkCfg
 	ctl := "plain"
+	if skipOracle {
+		// the oracle below does not apply (a subset matcher's Decide and Match differ; InterpretAs needs a reifier); the model
+		// correspondence does: draw the controls from the side stream
+		switch side.Intn(4) {
+		case 0:
+			w.Once = true
+		case 1, 2:
+			w.Once, w.Skip = side.Bool(), map[string]bool{}
+			for _, cb := range g.Order {
+				if side.Chance(1, 3) {
+					w.Skip[cb] = true
+				}
+			}
+		}
+		wt.add(g, spec, w, side)
+		c.Dist("walk-linked-model:oracle-not-applicable")
+		return nil
+	}
 	switch r.Intn(4) {
 	case 0:
 		w.Once, ctl = true, "once"
@@ -661,6 +903,10 @@ func c16WalkLinked(c *core.Ctx, r *core.Rand) error {
 			}
 		}
 	}
+	// (D) the model of walkTransforming on this graph, selector and controls (also when the walk below does not end ok:
+	// missing blocks, rejected specs)
+	wt.add(g, spec, w, side)
+	c.Dist("walk-linked-model:" + ctl)
 	U := core.RunWalk(g, spec, w, true)
 	if U.Compile != "" || U.Outcome != "ok" {
 		return nil
@@ -755,8 +1001,46 @@ func c16WalkLinked(c *core.Ctx, r *core.Rand) error {
 					sel = s3
 					if resolved(run(succ)) == want {
 						sig = "C16/walk-transform-noncanonical-index-field"
+						c.Dist("known-rule:canonical-spelling-repairs")
 					}
 					sel = s2
+				}
+				// as in c16Walking: the canonical name collides with another spelling of the same element, or the extra arrival
+				// of the walk through the non-canonical spelling used up the link's one visit under visit-once
+				if sig == "C16/walk-linked-transform-differs" && walkResolvedNonCanonicalIndex(g, spec, w) {
+					sig = "C16/walk-transform-noncanonical-index-field"
+					c.Dist("known-rule:walk-resolved-noncanonical-numeral-on-list")
+				}
+			}
+			// the other recorded finding (C16/walk-transform-order-under-visit-once): the transform goes through a node's
+			// children in the node's order, the walk in the selector's order, so under visit-once they may spend a repeated
+			// link's single visit at different positions.  Classified only when the difference is visit-once's alone: some
+			// link occurs twice, and without visit-once the same transform is exactly what the same walk says.
+			if sig == "C16/walk-linked-transform-differs" && w.Once && c16RepeatedLink(g) {
+				w2 := w
+				w2.Once = false
+				if U2 := core.RunWalk(g, spec, w2, true); U2.Outcome == "ok" {
+					want2 := expandVal(g.Vals, g.Root, 60)
+					for _, vis := range U2.Visits {
+						if nv, ok := refUpdate(&want2, vis.Path, func(prev *core.Val) *core.Val {
+							if prev != nil && prev.K == 'i' {
+								if i, ok := prev.Int64(); ok && i < 1<<40 && i > -(1<<40) {
+									x := core.Int(i + 1)
+									return &x
+								}
+							}
+							return prev
+						}, false); ok && nv != nil {
+							want2 = *nv
+						}
+					}
+					onceWas := w.Once
+					w.Once = false
+					got2 := resolved(run(succ))
+					w.Once = onceWas
+					if got2 == want2.Sorted(core.LessCbor).Term() {
+						sig = "C16/walk-transform-order-under-visit-once"
+					}
 				}
 			}
 			c.Fail(sig, core.Replay{Kind: "oracle", Case: caseID, Impl: truncateStr(got, 800), Expected: truncateStr(want, 800),
@@ -774,9 +1058,39 @@ func c16WalkLinked(c *core.Ctx, r *core.Rand) error {
 	return nil
 }
 
+// c16RepeatedLink: does some link occur at two positions of the graph (root or blocks)?
+func c16RepeatedLink(g *core.Graph) bool {
+	count := map[string]int{}
+	var walk func(v core.Val)
+	walk = func(v core.Val) {
+		switch v.K {
+		case 'l':
+			count[string(v.S)]++
+		case '[':
+			for _, x := range v.L {
+				walk(x)
+			}
+		case '{':
+			for _, e := range v.M {
+				walk(e.V)
+			}
+		}
+	}
+	walk(g.Root)
+	for _, b := range g.Vals {
+		walk(b)
+	}
+	for _, n := range count {
+		if n > 1 {
+			return true
+		}
+	}
+	return false
+}
+
 func runC16(c *core.Ctx) error {
 	c.Rule = "graphs as in C07; target paths from the explore-all visit sequence (existing positions, through links) extended with new keys, list append '-', out-of-bounds and non-numeric list segments and missing parents, with and without createParents; transform functions identity / remove / constant / wrap-previous; walking transform (identity, successor of every int) inside one block; non-trivial = path of at least 2 segments; distinct by case line"
-	c.Explanation = "theorems on the model of focusedTransform: untouched entries equal and in order, identity transform, the callback receives get(root, path), relink: resolving the new root reproduces the update"
+	c.Explanation = "theorems on the model of focusedTransform: untouched entries equal and in order, identity transform, the callback receives get(root, path), relink: resolving the new root reproduces the update; theorems on the model of walkTransforming (Props/C16walk.lean): the result is the input rewritten exactly where the callback answered another node (Spec.Rewrites), identity, skipped / seen links stay, each link requested at most once under visit-once, the callback sees what WalkMatching visits in the same order with the same budgets (where the two child enumerations pair up)"
 	c.Assumptions = []string{"removing a position that does not exist below a missing parent is compared with the model only (the reference treats it as a no-op)", "model links are not real CIDs: graphs are compared with every link resolved through the respective store", "WalkTransforming across links inlines the explored blocks (known finding K3): across links its result is compared with every link resolved through the store"}
 	// K3 witness: the walking transform inlines a linked block instead of re-linking it
 	{
@@ -791,6 +1105,35 @@ func runC16(c *core.Ctx) error {
 		res, err := traversal.Progress{Cfg: cfg}.WalkTransforming(root, s, func(p traversal.Progress, m datamodel.Node) (datamodel.Node, error) { return m, nil })
 		inlined := err == nil && termOf(res) != g.Root.Term()
 		c.KnownWitness("C16/walk-transform-inlines-linked-blocks", inlined, "identity WalkTransforming of {l: <link>} returns "+termOfOrErr(res, err))
+	}
+	// witness of the visit-once order finding: {a: X, b: X} with X = [1], a fields clause naming b (explore all, match)
+	// before a (match): the walk spends X's one visit at b and matches b/0, the transform spends it at a
+	{
+		g := &core.Graph{Blocks: map[string][]byte{}, Vals: map[string]core.Val{}}
+		cb, _ := g.AddBlock(core.List(core.Int(1)))
+		g.Root = core.Map(core.KV{K: []byte("a"), V: core.Link(cb)}, core.KV{K: []byte("b"), V: core.Link(cb)})
+		mm := func(k string, v core.Val) core.Val { return core.Map(core.KV{K: []byte(k), V: v}) }
+		match := mm(".", core.Map())
+		spec := mm("f", mm("f>", core.Map(core.KV{K: []byte("b"), V: mm("a", mm(">", match))}, core.KV{K: []byte("a"), V: match})))
+		root, _ := core.BuildBasic(g.Root, nil)
+		shown := false
+		detail := "not reproduced"
+		if s, st := core.CompileSel(spec); st == "" {
+			mk := func() traversal.Progress {
+				return traversal.Progress{Cfg: &traversal.Config{LinkSystem: g.LinkSystem(nil, nil), LinkVisitOnlyOnce: true, LinkTargetNodePrototypeChooser: func(datamodel.Link, linking.LinkContext) (datamodel.NodePrototype, error) {
+					return basicnode.Prototype.Any, nil
+				}}}
+			}
+			var matches, calls []string
+			mk().WalkMatching(root, s, func(p traversal.Progress, n datamodel.Node) error { matches = append(matches, p.Path.String()); return nil })
+			res, err := mk().WalkTransforming(root, s, func(p traversal.Progress, m datamodel.Node) (datamodel.Node, error) {
+				calls = append(calls, p.Path.String())
+				return m, nil
+			})
+			shown = err == nil && strings.Join(matches, ",") != strings.Join(calls, ",")
+			detail = fmt.Sprintf("WalkMatching matches at [%s], WalkTransforming calls back at [%s] and returns %s", strings.Join(matches, ","), strings.Join(calls, ","), termOfOrErr(res, err))
+		}
+		c.KnownWitness("C16/walk-transform-order-under-visit-once", shown, detail)
 	}
 	var lines, impls []string
 	n := c.Pick(1500, 100000)
@@ -812,17 +1155,46 @@ func runC16(c *core.Ctx) error {
 			c.Fail("C16/corr-focused-transform", core.Replay{Kind: "correspondence", Case: lines[i], Impl: impls[i], Model: outs[i]})
 		}
 	}
+	wt := &wtBatch{}
 	for i := 0; i < c.Pick(300, 20000); i++ {
-		if err := c16Walking(c, c.Rand.Fork()); err != nil {
+		if err := c16Walking(c, c.Rand.Fork(), wt); err != nil {
 			return err
 		}
 	}
 	for i := 0; i < c.Pick(400, 30000); i++ {
-		if err := c16WalkLinked(c, c.Rand.Fork()); err != nil {
+		if err := c16WalkLinked(c, c.Rand.Fork(), wt); err != nil {
 			return err
 		}
 	}
-	return nil
+	// directed shapes for the model correspondence (model == code on each; what they show is in Props/C16walk.lean):
+	{
+		mt := core.Map(core.KV{K: []byte("."), V: core.Map()})
+		all := func(x core.Val) core.Val { return core.Map(core.KV{K: []byte("a"), V: core.Map(core.KV{K: []byte(">"), V: x})}) }
+		fields := func(kvs ...core.KV) core.Val {
+			return core.Map(core.KV{K: []byte("f"), V: core.Map(core.KV{K: []byte("f>"), V: core.Map(kvs...)})})
+		}
+		side := c.Rand.Fork()
+		// (1) a fields clause naming "b" before "a" over {a: <X>, b: <X>}: the walk explores X below b, the transform below a;
+		//     under visit-once they therefore target different positions
+		g := &core.Graph{Blocks: map[string][]byte{}, Vals: map[string]core.Val{}}
+		cb, err := g.AddBlock(core.List(core.Int(1)))
+		if err != nil {
+			return err
+		}
+		g.Root = core.Map(core.KV{K: []byte("a"), V: core.Link(cb)}, core.KV{K: []byte("b"), V: core.Link(cb)})
+		spec := fields(core.KV{K: []byte("b"), V: all(mt)}, core.KV{K: []byte("a"), V: mt})
+		for _, once := range []bool{false, true} {
+			wt.add(g, spec, core.WalkCfg{Once: once}, side)
+		}
+		// (2) one seen-set for all levels: [[<X>], <X>] under visit-once
+		g2 := &core.Graph{Blocks: g.Blocks, Vals: g.Vals, Order: g.Order, Root: core.List(core.List(core.Link(cb)), core.Link(cb))}
+		wt.add(g2, core.SelAll(), core.WalkCfg{Once: true}, side)
+		// (3) a list element named "01"
+		g3 := &core.Graph{Blocks: map[string][]byte{}, Vals: map[string]core.Val{}, Root: core.List(core.Int(7), core.Int(8))}
+		wt.add(g3, fields(core.KV{K: []byte("01"), V: mt}), core.WalkCfg{}, side)
+		c.Dist("walk-transform-model:directed")
+	}
+	return wt.check(c)
 }
 
 func termOfOrErrSafe(n datamodel.Node, err error) (out string) {
@@ -832,6 +1204,53 @@ func termOfOrErrSafe(n datamodel.Node, err error) (out string) {
 		}
 	}()
 	return termOfOrErr(n, err)
+}
+
+// walkResolvedNonCanonicalIndex: did the walk (WalkAdv under the same controls: candidates included, a block loaded through
+// a non-canonical spelling counts even if nothing in it matched) arrive at a position through a LIST element named by a
+// non-canonical numeral ("01", "+1", "-0", "00")?  That is the trigger of the recorded finding
+// C16/walk-transform-noncanonical-index-field: Walk resolves such a name through LookupBySegment (strconv.ParseInt), the
+// transform compares it with the list iterator's canonical segment and passes the element over.  Map keys that happen to
+// read as non-canonical numerals do not count (both resolve them by text).
+func walkResolvedNonCanonicalIndex(g *core.Graph, spec core.Val, w core.WalkCfg) bool {
+	A := core.RunWalk(g, spec, w, false)
+	for _, vis := range A.Visits {
+		cur := g.Root
+	segs:
+		for _, seg := range vis.Path {
+			switch cur.K {
+			case '[':
+				i, err := strconv.ParseInt(seg, 10, 64)
+				if err != nil || i < 0 || i >= int64(len(cur.L)) {
+					break segs
+				}
+				if strconv.FormatInt(i, 10) != seg {
+					return true
+				}
+				cur = cur.L[i]
+			case '{':
+				found := false
+				for _, e := range cur.M {
+					if string(e.K) == seg {
+						cur, found = e.V, true
+						break
+					}
+				}
+				if !found {
+					break segs
+				}
+			default:
+				break segs
+			}
+			// a link child stands for its block at the same path (one hop, as the walk loads it)
+			if cur.K == 'l' {
+				if b, ok := g.Vals[string(cur.S)]; ok {
+					cur = b
+				}
+			}
+		}
+	}
+	return false
 }
 
 // canonicalNumeralFields rewrites the field names of every ExploreFields clause ("f" → "f>" → names) that are
